@@ -1,9 +1,20 @@
 import Yuiv.Proofs.C08Schur
+import Yuiv.Proofs.C08
+import Mathlib.Data.ZMod.Basic
 /-
-Final theorems for the Schur-complement step (C08) and the composition layer.
-Conventions and definitions: see `Yuiv/Proofs/C08Schur.lean`.
-`M = fromBlocks a b c d`, `N = fromRows x y`, `L = fromCols z w`, `S = schurS ainv b c d`.
-Everything holds over an arbitrary (not necessarily commutative) ring.
+C08 — chain reduction is a homotopy equivalence with correct transfer maps.  Property theorems only.
+
+ 1. one Schur step (the mechanism of `ChainReducer::reduce_at_spec` + `Schur::from_partial_triangular`), for
+    any ring, any finite block sizes, pivot block `a` merely invertible: the transfer maps the code builds
+    (`F_src = [0 1]`, `B_src = [-a⁻¹b; 1]`, `F_tgt = [-c a⁻¹ 1]`, `B_tgt = [0; 1]`) are chain maps for the three
+    affected differentials, `F B = 1`, the reduced neighbours compose to zero with `S = d - c a⁻¹ b`;
+ 2. the homotopy `B F - 1 = d h + h d` with `h = [-a⁻¹ 0; 0 0]`;
+ 3. composition: reduction data (and homotopy equivalences) are closed under identity, composition and
+    conjugation by invertible / permutation matrices — the induction principle for any sequence of steps;
+ 4. the executable checker that the driver runs on the exported state of the real reducer is sound and complete.
+
+Definitions: `Yuiv/Proofs/C08Schur.lean` (Schur maps, `IsReduction`, `IsHomotopyEquiv`), `Yuiv/Proofs/C08.lean`
+(`toM`, `Spec`), `Yuiv/Model/C08.lean` (`check`).
 -/
 namespace Yuiv.C08
 open Matrix
@@ -348,5 +359,89 @@ example : ∀ i, (Ex.σ i).permMatrix ℤ * (Ex.σ i)⁻¹.permMatrix ℤ = 1 :=
 example : ∃ (d' : ∀ _ : ℕ, Matrix (Fin 2) (Fin 2) ℤ) (F B h : ∀ _ : ℕ, Matrix (Fin 2) (Fin 2) ℤ),
     IsHomotopyEquiv Ex.dd d' F B h :=
   ⟨_, _, _, _, (IsHomotopyEquiv.of_perm Ex.dd Ex.σ).comp (IsHomotopyEquiv.of_perm _ Ex.σ)⟩
+
+/-! ## 4. the executable checker `C08.check` (run by the driver on the exported state of the real reducer)
+
+`check eq x = true` holds exactly when the exported data satisfy every identity of `Spec` — so a reply `ok` of
+the driver on a harness line is a Lean-verified statement about the actual output of the Rust code:
+`d'∘d' = 0`, `F d = d' F`, `d B = B d'`, `F B = 1`, `F v = v'` in every degree, as identities of Mathlib
+matrices (over `β`, through `φ`; `φ = id` for `ℤ`, `ℚ`; `φ = Int.cast : ℤ → ZMod p` for `F_p`). -/
+
+/-- soundness and completeness of the checker, for any scalar semiring and any equality test that decides
+equality of `φ`-images. -/
+theorem check_iff {α β : Type} [Semiring α] [Semiring β] (φ : α →+* β) (eq : α → α → Bool)
+    (heq : ∀ a b, eq a b = true ↔ φ a = φ b) (x : RedData α) :
+    check eq x = true ↔ Spec φ x := by
+  simp only [check, checkIn, checkDD, checkFd, checkdB, checkFB, checkFv, Bool.and_eq_true, allN_iff,
+    cIn, cDD, cFd, cdB, cFB, cFv, mulEq0_iff φ eq heq, mulEq2_iff φ eq heq, mulEqI_iff φ eq heq,
+    mulEq1_iff φ eq heq, Nat.add_sub_cancel]
+  constructor
+  · rintro ⟨⟨⟨⟨⟨h1, h2⟩, h3⟩, h4⟩, h5⟩, h6⟩
+    refine ⟨?_, ?_, ?_, ?_, fun i hi => h5 i (by omega), fun i hi => h6 i (by omega)⟩
+    · intro i hi hk
+      obtain ⟨j, rfl⟩ : ∃ j, i = j + 1 := ⟨i - 1, by omega⟩
+      simpa using h1 j (by omega)
+    · intro i hi hk
+      obtain ⟨j, rfl⟩ : ∃ j, i = j + 1 := ⟨i - 1, by omega⟩
+      simpa using h2 j (by omega)
+    · intro i hi hk
+      obtain ⟨j, rfl⟩ : ∃ j, i = j + 1 := ⟨i - 1, by omega⟩
+      simpa using h3 j (by omega)
+    · intro i hi hk
+      obtain ⟨j, rfl⟩ : ∃ j, i = j + 1 := ⟨i - 1, by omega⟩
+      simpa using h4 j (by omega)
+  · rintro ⟨h1, h2, h3, h4, h5, h6⟩
+    refine ⟨⟨⟨⟨⟨?_, ?_⟩, ?_⟩, ?_⟩, fun i hi => h5 i (by omega)⟩, fun i hi => h6 i (by omega)⟩
+    · intro i hi; simpa using h1 (i + 1) (by omega) (by omega)
+    · intro i hi; simpa using h2 (i + 1) (by omega) (by omega)
+    · intro i hi; simpa using h3 (i + 1) (by omega) (by omega)
+    · intro i hi; simpa using h4 (i + 1) (by omega) (by omega)
+
+/-- soundness alone needs only one direction of the equality test -/
+theorem check_sound {α β : Type} [Semiring α] [Semiring β] (φ : α →+* β) (eq : α → α → Bool)
+    (heq : ∀ a b, eq a b = true → φ a = φ b) (x : RedData α) (h : check eq x = true) : Spec φ x := by
+  -- strengthen the test to the exact one: `eq' a b := decide (φ a = φ b)` accepts whenever `eq` does
+  classical
+  have mono : ∀ (n : Nat) (p q : Nat → Bool), (∀ i, p i = true → q i = true) → allN n p = true → allN n q = true := by
+    intro n p q hpq hp; rw [allN_iff] at *; exact fun i hi => hpq i (hp i hi)
+  let eq' : α → α → Bool := fun a b => decide (φ a = φ b)
+  have heq' : ∀ a b, eq' a b = true ↔ φ a = φ b := fun a b => by simp [eq']
+  have himp : ∀ a b, eq a b = true → eq' a b = true := fun a b hab => (heq' a b).2 (heq a b hab)
+  refine (check_iff φ eq' heq' x).1 ?_
+  simp only [check, checkIn, checkDD, checkFd, checkdB, checkFB, checkFv, Bool.and_eq_true,
+    cIn, cDD, cFd, cdB, cFB, cFv, mulEq0, mulEq2, mulEqI, mulEq1] at h ⊢
+  obtain ⟨⟨⟨⟨⟨h1, h2⟩, h3⟩, h4⟩, h5⟩, h6⟩ := h
+  refine ⟨⟨⟨⟨⟨?_, ?_⟩, ?_⟩, ?_⟩, ?_⟩, ?_⟩
+  all_goals first
+    | exact mono _ _ _ (fun i => mono _ _ _ (fun j => mono _ _ _ (fun l => himp _ _))) ‹_›
+  
+/-- over `ℤ` (ring tag `Z` of the driver: `eqMod 0`) -/
+theorem check_int_iff (x : RedData Int) : check (eqMod 0) x = true ↔ Spec (RingHom.id Int) x :=
+  check_iff (RingHom.id Int) (eqMod 0) (fun a b => by simpa using eqMod_zero_iff a b) x
+
+/-- over `F_p` (ring tags `F2`, `F3`, …: integer representatives compared modulo `p`) -/
+theorem check_zmod_iff (p : Nat) (x : RedData Int) :
+    check (eqMod p) x = true ↔ Spec (Int.castRingHom (ZMod p)) x :=
+  check_iff (Int.castRingHom (ZMod p)) (eqMod p)
+    (fun a b => by
+      rw [eqMod_iff, eq_comm (a := (Int.castRingHom (ZMod p)) a)]
+      simpa using (ZMod.intCast_eq_intCast_iff_dvd_sub b a p).symm) x
+
+/-- over `ℚ` (ring tag `Q`) -/
+theorem check_rat_iff (x : RedData Rat) :
+    check (fun a b => a == b) x = true ↔ Spec (RingHom.id Rat) x :=
+  check_iff (RingHom.id Rat) (fun a b => a == b) (fun a b => by simp) x
+
+/-- the checker accepts a genuine reduction (`ℤ --2--> ℤ` kept, with a tracked vector) … -/
+example : check (eqMod 0)
+    { k := 1, n := #[1, 1], m := #[1, 1], d := #[⟨0, 1, #[]⟩, ⟨1, 1, #[2]⟩], d' := #[⟨0, 1, #[]⟩, ⟨1, 1, #[2]⟩],
+      F := #[⟨1, 1, #[1]⟩, ⟨1, 1, #[1]⟩], B := #[⟨1, 1, #[1]⟩, ⟨1, 1, #[1]⟩], t := #[0, 1],
+      V := #[⟨1, 0, #[]⟩, ⟨1, 1, #[5]⟩], V' := #[⟨1, 0, #[]⟩, ⟨1, 1, #[5]⟩] } = true := by decide
+
+/-- … and rejects a wrong forward map. -/
+example : check (eqMod 0)
+    { k := 1, n := #[1, 1], m := #[1, 1], d := #[⟨0, 1, #[]⟩, ⟨1, 1, #[2]⟩], d' := #[⟨0, 1, #[]⟩, ⟨1, 1, #[2]⟩],
+      F := #[⟨1, 1, #[1]⟩, ⟨1, 1, #[3]⟩], B := #[⟨1, 1, #[1]⟩, ⟨1, 1, #[1]⟩], t := #[0, 0],
+      V := #[⟨1, 0, #[]⟩, ⟨1, 0, #[]⟩], V' := #[⟨1, 0, #[]⟩, ⟨1, 0, #[]⟩] } = false := by decide
 
 end Yuiv.C08
